@@ -98,6 +98,7 @@ type endpoint struct {
 	recvHB   []byte    // header block being received
 	pendTab  []*uint32 // HEADER_TABLE_SIZE of each SETTINGS frame received and not yet acknowledged
 	announce uint32    // the HEADER_TABLE_SIZE this endpoint announced last
+	applyTab *uint32   // acknowledged HEADER_TABLE_SIZE to apply to enc before the next block
 }
 
 func newEndpoint() *endpoint {
@@ -108,9 +109,15 @@ func newEndpoint() *endpoint {
 }
 
 func (e *endpoint) encode(fs []Field) []byte {
+	// x/net's hpack.Decoder refuses two consecutive dynamic table size updates at the start of a block
+	// (which hpack.Encoder emits after "lower, then raise"): only the last acknowledged value is applied
+	if e.applyTab != nil {
+		e.enc.SetMaxDynamicTableSize(*e.applyTab)
+		e.applyTab = nil
+	}
 	e.encBuf.Reset()
 	for _, f := range fs {
-		_ = e.enc.WriteField(hpack.HeaderField{Name: f.N, Value: f.V, Sensitive: f.S})
+		_ = e.enc.WriteField(hpack.HeaderField{Name: f.N, Value: f.Val(), Sensitive: f.S})
 	}
 	return cp(e.encBuf.Bytes())
 }
@@ -145,7 +152,7 @@ func newMirror() *mirror {
 func toFields(hf []hpack.HeaderField) []Field {
 	out := make([]Field, len(hf))
 	for i, h := range hf {
-		out[i] = Field{h.Name, h.Value, h.Sensitive}
+		out[i] = Field{N: h.Name, V: h.Value, S: h.Sensitive}
 	}
 	return out
 }
@@ -241,152 +248,196 @@ func firstAppearance(fs []Frame) []uint32 {
 	return out
 }
 
-// Exec runs the ops against a fresh rig.  flush: the ops end with the window-opening epilogue.
-func Exec(ops []Op, flushed bool) *Case {
-	rig := hook.New()
-	defer rig.Close()
-	c := &Case{Ops: ops, MC: newMirror(), MS: newMirror()}
-	ep := map[string]*endpoint{"C": newEndpoint(), "S": newEndpoint()}
-	mirTowards := map[string]*mirror{"C": c.MC, "S": c.MS}
-	other := map[string]string{"C": "S", "S": "C"}
+// DecoderFollowsSettings tells the mirrors whether relay.updateTableSize also resizes the relay's HPACK
+// decoder (Tables.v: table_size_resizes_decoder, read from the source by the translator).
+var DecoderFollowsSettings = true
 
-	tainted := false // an endpoint has already sent something a conforming endpoint would not send
-	for oi := range ops {
-		o := &ops[oi]
-		me := ep[o.From]
-		if !o.Valid {
-			tainted = true
+// Session is one pair of relays with its two scripted endpoints.
+type Session struct {
+	rig     *hook.Rig
+	c       *Case
+	ep      map[string]*endpoint
+	mir     map[string]*mirror // by the endpoint the relay sends towards
+	tainted bool               // an endpoint has already sent something a conforming endpoint would not send
+}
+
+var otherSide = map[string]string{"C": "S", "S": "C"}
+
+// NewSession builds a fresh rig.
+func NewSession() *Session {
+	s := &Session{rig: hook.New(), c: &Case{MC: newMirror(), MS: newMirror()}}
+	s.ep = map[string]*endpoint{"C": newEndpoint(), "S": newEndpoint()}
+	s.mir = map[string]*mirror{"C": s.c.MC, "S": s.c.MS}
+	return s
+}
+
+// Close stops the rig's goroutines.
+func (s *Session) Close() { s.rig.Close() }
+
+// Last returns the most recent observed step (nil if none).
+func (s *Session) Last() *StepObs {
+	if len(s.c.Steps) == 0 {
+		return nil
+	}
+	return &s.c.Steps[len(s.c.Steps)-1]
+}
+
+// Do sends the frames of one op; it returns false when the relay has failed or diverged.
+func (s *Session) Do(o Op) bool {
+	c := s.c
+	if c.Dead {
+		return false
+	}
+	oi := len(c.Ops)
+	c.Ops = append(c.Ops, o)
+	me := s.ep[o.From]
+	if !o.Valid {
+		s.tainted = true
+	}
+	var block []byte
+	switch o.Kind {
+	case "headers", "push":
+		block = me.encode(o.Fields)
+	case "rawblock":
+		block = o.Block
+	case "settings":
+		for _, st := range o.Settings {
+			if st[0] == uint32(http2.SettingHeaderTableSize) {
+				me.announce = st[1]
+				me.dec.SetAllowedMaxDynamicTableSize(st[1])
+			}
 		}
-		var block []byte
-		switch o.Kind {
-		case "headers", "push":
-			block = me.encode(o.Fields)
-		case "rawblock":
-			block = o.Block
-		case "settings":
-			for _, s := range o.Settings {
-				if s[0] == uint32(http2.SettingHeaderTableSize) {
-					me.announce = s[1]
-					me.dec.SetAllowedMaxDynamicTableSize(s[1])
-				}
+	case "ack":
+		if len(me.pendTab) > 0 {
+			if v := me.pendTab[0]; v != nil {
+				me.applyTab = v
 			}
-		case "ack":
-			if len(me.pendTab) > 0 {
-				if v := me.pendTab[0]; v != nil {
-					me.enc.SetMaxDynamicTableSize(*v)
-				}
-				me.pendTab = me.pendTab[1:]
-			}
-		}
-		raws, err := o.frames(block)
-		if err != nil {
-			panic(err)
-		}
-		for _, raw := range raws {
-			in := parseAll(raw)[0]
-			st := StepObs{Op: oi, From: o.From, In: in, Valid: !tainted}
-			// the relay that reads this frame sends towards the other endpoint
-			rd := mirTowards[other[o.From]]
-			peer := mirTowards[o.From]
-			switch in.T {
-			case "settings":
-				for _, s := range in.Settings {
-					if s[0] == uint32(http2.SettingHeaderTableSize) {
-						peer.dec.SetMaxDynamicTableSize(s[1])
-						peer.enc.SetMaxDynamicTableSize(s[1])
-					}
-				}
-			case "headers", "push":
-				me.sendHB = cp(in.Data)
-				if in.EH {
-					rd.block(me.sendHB)
-				}
-			case "cont":
-				me.sendHB = append(me.sendHB, in.Data...)
-				if in.EH {
-					rd.block(me.sendHB)
-				}
-			}
-			r := rig.Step(o.From == "C", raw, 200000, 5*time.Second)
-			st.ToC, st.ToS = parseAll(r.ToClient), parseAll(r.ToServer)
-			switch {
-			case r.Diverged:
-				st.Status = "Diverge"
-				st.Err = fmt.Sprintf("processFrame did not return (%d frames to client, %d to server so far)", len(st.ToC), len(st.ToS))
-				st.ToC, st.ToS = nil, nil
-			case r.ReadErr != nil:
-				st.Status, st.Err = "Err", "ReadFrame: "+r.ReadErr.Error()
-				st.In = Frame{T: "unknown"}
-			case r.ProcessErr != nil:
-				st.Status, st.Err = "Err", r.ProcessErr.Error()
-			default:
-				st.Status = "Ok"
-			}
-			if !r.Diverged {
-				st.SnapC, st.SnapS = snapOf(rig.Snapshot(true)), snapOf(rig.Snapshot(false))
-			}
-			// visiting order of the map ranges, reconstructed from what was released towards the sender
-			back := st.ToC
-			if o.From == "S" {
-				back = st.ToS
-			}
-			switch in.T {
-			case "winupd":
-				if in.ID == 0 {
-					st.Orders = [][]uint32{firstAppearance(back)}
-				}
-			case "settings":
-				for _, s := range in.Settings {
-					if s[0] == uint32(http2.SettingInitialWindowSize) {
-						st.Orders = append(st.Orders, firstAppearance(back))
-					}
-				}
-			}
-			// what the endpoints make of the frames they were sent
-			for _, side := range []string{"C", "S"} {
-				fs := st.ToC
-				if side == "S" {
-					fs = st.ToS
-				}
-				e := ep[side]
-				for _, f := range fs {
-					var done bool
-					switch f.T {
-					case "headers", "push":
-						e.recvHB, done = cp(f.Data), f.EH
-					case "cont":
-						e.recvHB, done = append(e.recvHB, f.Data...), f.EH
-					case "settings":
-						var tab *uint32
-						for _, s := range f.Settings {
-							if s[0] == uint32(http2.SettingHeaderTableSize) {
-								v := s[1]
-								tab = &v
-							}
-						}
-						e.pendTab = append(e.pendTab, tab)
-					}
-					if done {
-						var ans *[]Field
-						if hf, err := e.dec.DecodeFull(e.recvHB); err == nil {
-							fl := toFields(hf)
-							ans = &fl
-						}
-						if side == "C" {
-							st.DecC = append(st.DecC, ans)
-						} else {
-							st.DecS = append(st.DecS, ans)
-						}
-					}
-				}
-			}
-			c.Steps = append(c.Steps, st)
-			if st.Status != "Ok" {
-				c.Dead = true
-				return c
-			}
+			me.pendTab = me.pendTab[1:]
 		}
 	}
-	c.Flushed = flushed
-	return c
+	raws, err := o.frames(block)
+	if err != nil {
+		panic(err)
+	}
+	for _, raw := range raws {
+		in := parseAll(raw)[0]
+		st := StepObs{Op: oi, From: o.From, In: in, Valid: !s.tainted}
+		// the relay that reads this frame sends towards the other endpoint
+		rd := s.mir[otherSide[o.From]]
+		peer := s.mir[o.From]
+		switch in.T {
+		case "settings":
+			for _, x := range in.Settings {
+				if x[0] == uint32(http2.SettingHeaderTableSize) {
+					if DecoderFollowsSettings {
+						peer.dec.SetMaxDynamicTableSize(x[1])
+					}
+					peer.enc.SetMaxDynamicTableSize(x[1])
+				}
+			}
+		case "headers", "push":
+			me.sendHB = cp(in.Data)
+			if in.EH {
+				rd.block(me.sendHB)
+			}
+		case "cont":
+			me.sendHB = append(me.sendHB, in.Data...)
+			if in.EH {
+				rd.block(me.sendHB)
+			}
+		}
+		r := s.rig.Step(o.From == "C", raw, 200000, 5*time.Second)
+		st.ToC, st.ToS = parseAll(r.ToClient), parseAll(r.ToServer)
+		switch {
+		case r.Diverged:
+			st.Status = "Diverge"
+			st.Err = fmt.Sprintf("processFrame did not return (%d frames to client, %d to server so far)", len(st.ToC), len(st.ToS))
+			st.ToC, st.ToS = nil, nil
+		case r.ReadErr != nil:
+			st.Status, st.Err = "Err", "ReadFrame: "+r.ReadErr.Error()
+			st.In = Frame{T: "unknown"}
+		case r.ProcessErr != nil:
+			st.Status, st.Err = "Err", r.ProcessErr.Error()
+		default:
+			st.Status = "Ok"
+		}
+		if !r.Diverged {
+			st.SnapC, st.SnapS = snapOf(s.rig.Snapshot(true)), snapOf(s.rig.Snapshot(false))
+		}
+		// visiting order of the map ranges, reconstructed from what was released towards the sender
+		back := st.ToC
+		if o.From == "S" {
+			back = st.ToS
+		}
+		switch in.T {
+		case "winupd":
+			if in.ID == 0 {
+				st.Orders = [][]uint32{firstAppearance(back)}
+			}
+		case "settings":
+			for _, x := range in.Settings {
+				if x[0] == uint32(http2.SettingInitialWindowSize) {
+					st.Orders = append(st.Orders, firstAppearance(back))
+				}
+			}
+		}
+		// what the endpoints make of the frames they were sent
+		for _, side := range []string{"C", "S"} {
+			fs := st.ToC
+			if side == "S" {
+				fs = st.ToS
+			}
+			e := s.ep[side]
+			for _, f := range fs {
+				var done bool
+				switch f.T {
+				case "headers", "push":
+					e.recvHB, done = cp(f.Data), f.EH
+				case "cont":
+					e.recvHB, done = append(e.recvHB, f.Data...), f.EH
+				case "settings":
+					var tab *uint32
+					for _, x := range f.Settings {
+						if x[0] == uint32(http2.SettingHeaderTableSize) {
+							v := x[1]
+							tab = &v
+						}
+					}
+					e.pendTab = append(e.pendTab, tab)
+				}
+				if done {
+					var ans *[]Field
+					if hf, err := e.dec.DecodeFull(e.recvHB); err == nil {
+						fl := toFields(hf)
+						ans = &fl
+					}
+					if side == "C" {
+						st.DecC = append(st.DecC, ans)
+					} else {
+						st.DecS = append(st.DecS, ans)
+					}
+				}
+			}
+		}
+		c.Steps = append(c.Steps, st)
+		if st.Status != "Ok" {
+			c.Dead = true
+			return false
+		}
+	}
+	return true
+}
+
+// Exec runs the ops against a fresh rig.  flushed: the ops end with the window-opening epilogue.
+func Exec(ops []Op, flushed bool) *Case {
+	s := NewSession()
+	defer s.Close()
+	for _, o := range ops {
+		if !s.Do(o) {
+			break
+		}
+	}
+	s.c.Ops = ops
+	s.c.Flushed = flushed && !s.c.Dead
+	return s.c
 }
